@@ -705,12 +705,13 @@ func execHistClaims(res *Result, t *Trace, obj string, start *ClaimsDesc) {
 		res.logf("%d %s err=%s", i, op.K, okOrErr(err))
 		res.shapeAcc += op.K + okOrErr(err) + ","
 		isClear := op.K == "sw" && op.D == 2
+		// the specific call site (profile.setter, .nil for the nil list) identifies a finding
+		sig := fmt.Sprintf("%s.%s", obj, op.K)
+		if op.K == "sw" && op.D == 1 {
+			sig += ".nil"
+		}
 		if !isClear {
 			if acc, known := validationAccepts(obj, op); known {
-				sig := fmt.Sprintf("%s.%s", obj, op.K)
-				if op.K == "sw" && op.D == 1 {
-					sig += ".nil"
-				}
 				if acc && err != nil {
 					res.violate("C11", "setter-rejects-what-validation-accepts", sig, i, "%s setter %s rejected a value (%s) that the profile's validation accepts on an otherwise valid claims-set: %v", obj, op.K, opValue(op), err)
 				}
@@ -728,7 +729,7 @@ func execHistClaims(res *Result, t *Trace, obj string, start *ClaimsDesc) {
 		}
 		if err != nil {
 			if before != after {
-				res.violate("C11", "failed-setter-changed-object", "", i, "%s setter %s failed (%v) but the claims-set changed:\n before: %s\n after:  %s", obj, op.K, err, before, after)
+				res.violate("C11", "failed-setter-changed-object", sig, i, "%s setter %s failed (%v) but the claims-set changed:\n before: %s\n after:  %s", obj, op.K, err, before, after)
 			}
 			res.Probes["setter_failed"]++
 			continue
@@ -740,12 +741,12 @@ func execHistClaims(res *Result, t *Trace, obj string, start *ClaimsDesc) {
 			// must leave zero components
 			scs, _ := c.GetSoftwareComponents()
 			if len(scs) != 0 {
-				res.violate("C11", "clear-leaves-components", "", i, "SetSoftwareComponents([]) left %d components", len(scs))
+				res.violate("C11", "clear-leaves-components", sig, i, "SetSoftwareComponents([]) left %d components", len(scs))
 			}
 			res.Probes["sw_clear"]++
 		} else if ci >= 0 && ci < len(afterG) {
 			if want := expectedGetter(op); afterG[ci] != want {
-				res.violate("C11", "getter-differs-from-set-value", "", i, "after a successful %s the getter shows %s, want %s", op.K, afterG[ci], want)
+				res.violate("C11", "getter-differs-from-set-value", sig, i, "after a successful %s the getter shows %s, want %s", op.K, afterG[ci], want)
 			}
 		}
 		for j := range beforeG {
@@ -753,7 +754,7 @@ func execHistClaims(res *Result, t *Trace, obj string, start *ClaimsDesc) {
 				continue
 			}
 			if beforeG[j] != afterG[j] {
-				res.violate("C11", "setter-changed-other-claim", "", i, "successful %s changed another claim: %s -> %s", op.K, beforeG[j], afterG[j])
+				res.violate("C11", "setter-changed-other-claim", sig, i, "successful %s changed another claim: %s -> %s", op.K, beforeG[j], afterG[j])
 			}
 		}
 		// every mandatory claim set successfully => validates
@@ -768,11 +769,11 @@ func execHistClaims(res *Result, t *Trace, obj string, start *ClaimsDesc) {
 			if all {
 				res.Probes["all_mandatory_set"]++
 				if v := safely(func() string { return ec(c.Validate()) }); v != "ok" {
-					sig := ""
+					msig := obj
 					if lo := lastOK["sw"]; lo.D == 1 {
-						sig = obj + ".sw.nil"
+						msig = obj + ".sw.nil"
 					}
-					res.violate("C11", "all-mandatory-set-but-invalid", sig, i, "every mandatory claim was set successfully, yet Validate() = %s", v)
+					res.violate("C11", "all-mandatory-set-but-invalid", msig, i, "every mandatory claim was set successfully, yet Validate() = %s", v)
 				}
 			}
 		}
